@@ -275,7 +275,7 @@ def prim_cases(tier):
         yield extra
     # CPython's 4300-digit limit of int() for base 10 (none for base 16)
     for big in (b"9" * 4300, b"9" * 4301, b"0" * 4301, b"0" * 4300 + b"_7", b" -" + b"1" * 4301 + b" ", b"+" + b"1" * 4301,
-                b"_".join([b"12"] * 2150), b"_".join([b"12"] * 2151), b"f" * 3500):
+                b"_".join([b"12"] * 2151), b"f" * 3500):
         yield big
 
 
@@ -649,7 +649,7 @@ async def _run(ctx):
 
     # ---- B: random well-formed sequences, boundary-size bodies, random multi-cuts
     r = rng(seed, "c07rand")
-    n_rand = 1800 if tier == "quick" else 40000
+    n_rand = 1200 if tier == "quick" else 40000
     cases = []
     for i in range(n_rand):
         ms = [rand_msg(r, maxbody=r.choice([40, 300, 2048])) for _ in range(r.choice([1, 2, 3, 4, 6]))]
@@ -661,7 +661,7 @@ async def _run(ctx):
             if ref_parse(s + tail)[1] != "incomplete":
                 tail = b""
         k = r.choice([1, 2, 3, 5, 8, 13, 40])
-        if r.random() < 0.05:
+        if r.random() < 0.05 and (tier != "quick" or len(s + tail) <= 800):
             cuts = tuple(range(1, len(s + tail)))     # byte by byte
         else:
             cuts = rand_cuts(r, s + tail, k)
@@ -684,7 +684,7 @@ async def _run(ctx):
 
     # ---- C: mutated streams: all single cuts when short, random cuts otherwise
     r = rng(seed, "c07mut")
-    n_mut = 1200 if tier == "quick" else 25000
+    n_mut = 800 if tier == "quick" else 25000
     mcases = []
     for i in range(n_mut):
         ms = [rand_msg(r, maxbody=40) for _ in range(r.choice([1, 2, 3]))]
